@@ -57,7 +57,7 @@ def il_next_pc(ctx, lift, run, fst):
     return pc, none, exactly_one
 
 
-def analyse(arch, endian, item, specfn, k=4, timeout_ms=20000, observables=None, window=None, flag_names=()):
+def analyse(arch, endian, item, specfn, k=4, timeout_ms=20000, observables=None, window=None, flag_names=(), groupfn=None):
     """item: dict(bytes=hex, address=int, desc=...).  specfn(ctx, item, lift) -> SpecOut.
     Returns a result dict (picklable)."""
     t0 = time.time()
@@ -227,7 +227,8 @@ def analyse(arch, endian, item, specfn, k=4, timeout_ms=20000, observables=None,
     #    by observable group, so that findings are identified by solver-independent facts
     groups = {"flags": [], "value": [], "pc": []}
     for n, dterm in diffs.items():
-        if n in flag_names: groups["flags"].append(dterm)
+        if groupfn is not None and groupfn(n): groups.setdefault(groupfn(n), []).append(dterm)
+        elif n in flag_names: groups["flags"].append(dterm)
         elif n in ("pc", "successors-not-exclusive", "trap"): groups["pc"].append(dterm)
         else: groups["value"].append(dterm)
     classes = spec.classes or {"any": z3.BoolVal(True)}
